@@ -1211,15 +1211,35 @@ Definition param_wiring (P : program) (params : list (N * ty)) : list N * list (
 
 Definition lower_fuel : nat := 2000.
 
-Definition lower_program (dedup : bool) (P : program) : res lowered :=
+(* everything up to (not including) build: the final compiler state and the wires of the result *)
+Inductive lowered_pre :=
+| PreOk (s : cst) (outs : list W)
+| PreNoMain
+| PreZeroSizedInputs.
+
+Definition initial_cst (dedup : bool) (input_gates : list N) : cst :=
+  mkCst (new_builder dedup input_gates) pstate_new.
+
+Definition lower_main_with (fuel : nat) (dedup : bool) (P : program) : res lowered_pre :=
   match find_fn P (p_main P) with
-  | None => Ok LNoMain
+  | None => Ok PreNoMain
   | Some fd =>
       let '(input_gates, bindings) := param_wiring P (fn_params fd) in
-      if sumN input_gates =? 0 then Ok LZeroSizedInputs else
+      if sumN input_gates =? 0 then Ok PreZeroSizedInputs else
       let* E0 := main_env bops P bindings in
-      let s0 := mkCst (new_builder dedup input_gates) pstate_new in
-      let* ((outs, _), s1) := lower_block bops lower_fuel P (fn_body fd) E0 s0 in
+      let* ((outs, _), s1) := lower_block bops fuel P (fn_body fd) E0 (initial_cst dedup input_gates) in
+      Ok (PreOk s1 outs)
+  end.
+
+Definition lower_program_with (fuel : nat) (dedup : bool) (P : program) : res lowered :=
+  let* r := lower_main_with fuel dedup P in
+  match r with
+  | PreOk s1 outs =>
       let* c := build (cb s1) (prec_wires (ps_rec (cp s1))) outs in
       Ok (LCircuit c)
+  | PreNoMain => Ok LNoMain
+  | PreZeroSizedInputs => Ok LZeroSizedInputs
   end.
+
+Definition lower_main : bool -> program -> res lowered_pre := lower_main_with lower_fuel.
+Definition lower_program : bool -> program -> res lowered := lower_program_with lower_fuel.
